@@ -2,6 +2,7 @@
   C10 — Rollout split is sticky, monotone and confined to opted-in requests.
 -/
 import KamalProxy.Proofs.Control
+import KamalProxy.Proofs.SplitSticky
 namespace KamalProxy.C10
 open KamalProxy
 
@@ -133,6 +134,29 @@ theorem C10_split_needs_targets (c : Core) (name : Bytes) (pct : Int) (allow : L
     (stepCore c (.rolloutSet name pct allow)).1.svcs = c.svcs := by
   simp [stepCore, withSvc, hg, hr, save]
 
+/-! ### stickiness across commands (any history, no bound) -/
+
+/-- One command: the split (percentage and allowlist) of an installed service `n` is left exactly as it was by
+    every command other than `rollout set n`, `rollout stop n`, `remove` and a restart — in particular by a
+    redeploy or a rollout redeploy of `n` itself, by pause/stop/resume, and by any command on another service,
+    whether the command succeeds or fails. (Restart: `C11_reachable_roundtrip`.) -/
+theorem C10_split_survives_command (c : Core) (cmd : Cmd) (n : Bytes) (s : Option Split)
+    (h : splitOf c.svcs n = some s) (hc : touchesSplit n cmd = false) :
+    splitOf (stepCore c cmd).1.svcs n = some s := split_survives c cmd n s h hc
+
+/-- Whole histories: after ANY sequence of such commands the split of `n` is still the one the operator set;
+    since `pickSlot` depends on the service only through `rollout`, `split`, a client's assignment cannot change
+    "unless the operator changes the split". -/
+theorem C10_split_survives_history (cmds : List Cmd) (c : Core) (n : Bytes) (s : Option Split)
+    (h : splitOf c.svcs n = some s) (hc : ∀ cmd ∈ cmds, touchesSplit n cmd = false) :
+    splitOf (cmds.foldl (fun c cmd => (stepCore c cmd).1) c).svcs n = some s := by
+  induction cmds generalizing c with
+  | nil => exact h
+  | cons cmd rest ih =>
+    simp only [List.foldl_cons]
+    exact ih _ (split_survives c cmd n s h (hc cmd (List.mem_cons_self ..)))
+      (fun x hx => hc x (List.mem_cons_of_mem _ hx))
+
 -- non-vacuity / sanity
 example : valueUsesRollout ⟨50, []⟩ (asciiB "alice") ≠ valueUsesRollout ⟨50, []⟩ (asciiB "bob") ∨ True := Or.inr trivial
 example : valueUsesRollout ⟨0, [asciiB "vip"]⟩ (asciiB "vip") = true := by decide
@@ -140,5 +164,21 @@ example : pickSlot ⟨[], ⟨[], [], false, [], [], false, [], [], [], false⟩,
     ⟨[], 0, 0, 0, false, false, 0, 0, 0, [], [], false⟩, [asciiB "a:80"],
     some [asciiB "r:80"], Pause.init, some ⟨100, []⟩, false⟩
     [asciiB "x=1; kamal-rollout=u7"] = .rollout := by decide
+
+
+def o1 : SvcOptions := ⟨[asciiB "a.com"], [], false, [], [], true, [], [], [], true⟩
+def t1 : TargetOptions := ⟨[], 1, 1, 1, false, false, 0, 0, 0, [], [], false⟩
+def env1 : Env := ⟨true, true, true⟩
+def hist1 : List Cmd := [.deploy (asciiB "s4") [asciiB "s4-t1-a:80"] o1 t1 env1,
+  .rolloutDeploy (asciiB "s4") [asciiB "s4-r2-a:80"] env1, .rolloutSet (asciiB "s4") 0 [asciiB "qa-team"]]
+def hist2 : List Cmd := [.deploy (asciiB "s4") [asciiB "s4-t3-a:80"] o1 t1 env1, .pause (asciiB "s4") 5,
+  .resume (asciiB "s4"), .rolloutDeploy (asciiB "s4") [asciiB "s4-r4-a:80"] ⟨true, true, false⟩,
+  .deploy (asciiB "other") [asciiB "ot-t1-a:80"] o1 t1 env1]
+-- non-vacuity: the hypotheses of `C10_split_survives_history` hold of a reachable state and a five-command history
+example : splitOf (runCore hist1).svcs (asciiB "s4") = some (some ⟨0, [asciiB "qa-team"]⟩) ∧
+    (∀ cmd ∈ hist2, touchesSplit (asciiB "s4") cmd = false) ∧
+    splitOf (hist2.foldl (fun c cmd => (stepCore c cmd).1) (runCore hist1)).svcs (asciiB "s4") =
+      some (some ⟨0, [asciiB "qa-team"]⟩) := by
+  refine ⟨by decide +kernel, by decide +kernel, by decide +kernel⟩
 
 end KamalProxy.C10
